@@ -372,7 +372,8 @@ class G:
         saved = set(self.defined)
         cname = None
         if self.o.get("named") and r.random() < 0.5:
-            cname = "lp_" + var
+            self.nnames = getattr(self, "nnames", 0) + 1
+            cname = "lp%d_%s" % (self.nnames, var)
         self.loop_names = getattr(self, "loop_names", []) + [cname]
         self.active_loops.append((var, lo, room))
         body = self.block(depth + 1, r.randint(1, 3), in_loop=True)
